@@ -11,6 +11,7 @@ import (
 	"context"
 	"crypto/ed25519"
 	"fmt"
+	"os"
 	"sort"
 	"strings"
 	"sync"
@@ -307,10 +308,25 @@ func vRegScenario(r *vRand, name string, allow []int, body func(w *vRegWorld) st
 	fail := body(w)
 	time.Sleep(60 * time.Millisecond)
 	// views at quiescence
-	open := w.ls.S.OpenConnections()
+	open := 0
 	var keys []int
-	for _, k := range w.ls.S.GetConnectedPeerPublicKeys() {
-		keys = append(keys, w.keyIndex(k))
+	viewed := make(chan struct{})
+	go func() {
+		open = w.ls.S.OpenConnections()
+		for _, k := range w.ls.S.GetConnectedPeerPublicKeys() {
+			keys = append(keys, w.keyIndex(k))
+		}
+		close(viewed)
+	}()
+	select {
+	case <-viewed:
+	case <-time.After(6 * time.Second):
+		// the server is wedged: nothing more can be asked of it in this process
+		if fail == "" {
+			fail = "views-cannot-be-read/" + strings.Join(vParked(), ",")
+		}
+		vEmit(vCase{Class: "registry/" + name, Fail: fail, Sig: name + "/wedged", Info: map[string]interface{}{"scenario": name, "outcome": "the server's views do not return", "parked": vParked()}})
+		os.Exit(3)
 	}
 	sort.Ints(keys)
 	// ground truth seen from outside: which raw connections are served
@@ -509,6 +525,88 @@ func TestVerifC11Child(t *testing.T) {
 			}
 			if !vServed(b) {
 				return "newer-session-hidden-by-old-teardown"
+			}
+			return ""
+		})
+		// a session ends by itself (its peer has left; its teardown is held before it takes the server's lock) while a key
+		// update drops that very session: the update returns, the teardown completes, the view is empty
+		vRegScenario(r, "peer-leaves-while-an-update-drops-it", []int{0, 1}, func(w *vRegWorld) string {
+			a, err := w.dial(0)
+			if err != nil {
+				return "handshake-failed"
+			}
+			vWaitUntil(2*time.Second, func() bool { return w.ls.S.OpenConnections() == 1 })
+			verifrt.Hold(vLTearRL, 1)
+			a.Close()
+			held := vWaitHeld(vLTearRL, 1)
+			done := make(chan struct{})
+			go func() { _ = w.update([]int{1}); close(done) }()
+			returned := false
+			select {
+			case <-done:
+				returned = true
+			case <-time.After(1500 * time.Millisecond):
+			}
+			verifrt.Release(vLTearRL)
+			if !held {
+				return "gate-script-infeasible/teardown-not-held"
+			}
+			if !returned {
+				select {
+				case <-done:
+					return "update-waits-for-the-teardown-of-a-session-which-waits-for-the-update"
+				case <-time.After(3 * time.Second):
+					return "update-hangs-when-the-peer-it-drops-leaves"
+				}
+			}
+			if !vWaitUntil(3*time.Second, func() bool { return w.ls.S.OpenConnections() == 0 }) {
+				return "departed-session-stays-in-the-view"
+			}
+			return ""
+		})
+		// the views are polled from several goroutines while calls (to a key which is not connected), re-applied key lists and
+		// requests of a connected peer keep the server busy: every one of them keeps returning, and the view is right at the end
+		vRegScenario(r, "views-polled-while-the-server-is-busy", []int{0, 1}, func(w *vRegWorld) string {
+			a, err := w.dial(0)
+			if err != nil {
+				return "handshake-failed"
+			}
+			vWaitUntil(2*time.Second, func() bool { return w.ls.S.OpenConnections() == 1 })
+			stop := make(chan struct{})
+			var wg sync.WaitGroup
+			spin := func(f func()) {
+				wg.Add(1)
+				go func() {
+					defer wg.Done()
+					for {
+						select {
+						case <-stop:
+							return
+						default:
+						}
+						f()
+					}
+				}()
+			}
+			for i := 0; i < 4; i++ {
+				spin(func() { _ = w.ls.S.OpenConnections(); _ = w.ls.S.GetConnectedPeerPublicKeys() })
+			}
+			for i := 0; i < 3; i++ {
+				spin(func() { _ = w.serverCall(1, 5*time.Millisecond) })
+			}
+			spin(func() { _ = w.update([]int{0, 1}); time.Sleep(200 * time.Microsecond) })
+			spin(func() { _ = w.ls.S.GetConnectionNotifyChan(); time.Sleep(100 * time.Microsecond) })
+			time.Sleep(500 * time.Millisecond)
+			close(stop)
+			done := make(chan struct{})
+			go func() { wg.Wait(); close(done) }()
+			select {
+			case <-done:
+			case <-time.After(4 * time.Second):
+				return "server-wedged-by-concurrent-use/" + strings.Join(vParked(), ",")
+			}
+			if !vServed(a) {
+				return "session-disturbed-by-concurrent-use"
 			}
 			return ""
 		})
